@@ -2,12 +2,13 @@
 C06 — SharedFuture / SharedPromise: the callback word of a shared core used as a lock-free stack, and the
 reference counter that decides between copying and moving the value out.
 
-Written from /repo (as it is, including D3):
+Written from /repo (as it is):
   `BaseCore::SetCallbackImpl<true>`  load(acq); do { if (next == kResult) return false; cb.next = next; }
                                      while (!compare_exchange_weak(next, &cb, release, acquire)); return true
   `BaseCore::SetResultImpl<·,true>`  exchange(kResult, acq_rel); walk the list head → tail running every callback,
                                      `DecRef()` *before* the last one, two more `DecRef()` after it (three if the list was empty)
-  `BaseCore::Empty`                  load(acq) == kEmpty                (=> `Ready()` is "word ≠ empty": D3)
+  `BaseCore::Ready`                  load(acq) == kResult               (since /repo c9c07bc; the pinned tree tested
+                                     `!Empty()` = "word ≠ kEmpty", true while callbacks are merely registered: defect D3)
   `SharedPromise::Set / ~SharedPromise`, `SharedFutureBase::{Ready, Get const&, Get &&, Touch const&}`, `Wait`,
   `detail::SetCallback<…FromShared…>` + `Core::Impl` (inline: run now; `Call`: `caller.IncRef()`, Submit, later
   `Call()` + `caller->DecRef()`), `Connect(const SharedFutureBase&, Promise&&)` (Share / Split targets:
@@ -189,7 +190,7 @@ inductive Label where
   | oGetc (t : Nat) (r : Option Res)
   | oGetRef (t : Nat) (n : Nat)
   | oGot (t : Nat) (r : Option Res) (mv : Bool)
-  | oRdLoad (t : Nat) (x : Word)                        -- Ready(): Empty()'s load
+  | oRdLoad (t : Nat) (x : Word)                        -- Ready(): BaseCore::Ready()'s load
   | oReady (t : Nat) (b : Bool)
   | oTouch (t : Nat) (r : Option Res)
   | oCopy (t : Nat) (n : Nat)
@@ -295,7 +296,7 @@ def doGot (s : State) (t : Nat) (mv : Bool) : State :=
 
 /-- after `Ready()` reported: `readyTouch` goes on to `Touch()` if it was true -/
 def readyNext (o : Obs) (x : Word) : Obs :=
-  if x ≠ .list [] ∧ o.todo.head? = some .readyTouch then { o with pc := .touching } else nextOp o
+  if x = .result ∧ o.todo.head? = some .readyTouch then { o with pc := .touching } else nextOp o
 
 def doReady (s : State) (t : Nat) (x : Word) : State :=
   { s with readyObs := s.readyObs ++ [(x, s.stored.isSome)], obs := upd s.obs t (readyNext (s.obs t) x) }
@@ -388,12 +389,12 @@ inductive Step : State → Label → State → Prop where
       Step s (.oGetRef t s.count) { s with obs := upd s.obs t { s.obs t with pc := .gotRef s.count } }
   | oGot (s : State) (t : Nat) (n : Nat) (h : (s.obs t).pc = .gotRef n) :
       Step s (.oGot t s.stored (decide (n = 1))) (doGot s t (decide (n = 1)))
-  /-- Ready(): `!Empty()`, one acquire load (may be stale) -/
+  /-- Ready(): `BaseCore::Ready()`, one acquire load (may be stale), true iff it saw kResult -/
   | oRdLoad (s : State) (t : Nat) (op : Op) (rest : List Op) (x : Word) (h : (s.obs t).pc = .idle)
       (ht : (s.obs t).todo = op :: rest) (hop : isReadyOp op = true) (hr : 0 < (s.obs t).refs) (hx : loadOk s x) :
       Step s (.oRdLoad t x) { s with obs := upd s.obs t { s.obs t with pc := .rep x } }
   | oReady (s : State) (t : Nat) (x : Word) (h : (s.obs t).pc = .rep x) :
-      Step s (.oReady t (decide (x ≠ .list []))) (doReady s t x)
+      Step s (.oReady t (decide (x = .result))) (doReady s t x)
   | oTouch (s : State) (t : Nat) (h : (s.obs t).pc = .touching) : Step s (.oTouch t s.stored) (doTouch s t)
   | oCopy (s : State) (t : Nat) (rest : List Op) (h : (s.obs t).pc = .idle) (ht : (s.obs t).todo = .copy :: rest)
       (hr : 0 < (s.obs t).refs) : Step s (.oCopy t s.count) (doCopy s t)
@@ -528,7 +529,7 @@ def next (s : State) : Label → Option State
       else none
   | .oReady t b =>
       match (s.obs t).pc with
-      | .rep x => if b = decide (x ≠ .list []) then some (doReady s t x) else none
+      | .rep x => if b = decide (x = .result) then some (doReady s t x) else none
       | _ => none
   | .oTouch t r => if (s.obs t).pc = .touching ∧ r = s.stored then some (doTouch s t) else none
   | .oCopy t n =>
